@@ -287,3 +287,7 @@ package core
 
 //@ func (*pipe).Close
 //@   ensures !spawned("pipeClosed") && called("Do")
+
+// ---- round 7: an id handed out was not in use ----
+//@ func (*pipeIDAllocator).Get
+//@   before return#1 assert !at("loop1:head", has(p.used, id))
